@@ -462,6 +462,8 @@ func (rpcapi *ClusterRPCAPI) PinsRaw(ctx context.Context, in struct{}, out *[]*a
  ('C16-hand-ispinned-depth0-wants-recursive', 'api/types.go', '''	case maxDepth == 0:
 		return ips == IPFSPinStatusDirect''', '''	case maxDepth == 0:
 		return ips == IPFSPinStatusRecursive'''),
+ ('C10-hand-isclosest-nonstrict', 'util.go', '''bytes.Compare(myDistance[:], distance[:]) > 0''', '''bytes.Compare(myDistance[:], distance[:]) >= 0'''),
+ ('C10-hand-isclosest-inverted', 'util.go', '''bytes.Compare(myDistance[:], distance[:]) > 0''', '''bytes.Compare(distance[:], myDistance[:]) > 0'''),
  ('C15-hand-display-reads-other-tag', 'config/util.go', '''f.Tag.Get("hidden") == "true"''', '''f.Tag.Get("hide") == "true"'''),
  # C18
  ('C18-hand-store-add-under-rlock', 'monitor/metrics/store.go', None, None),
